@@ -238,3 +238,47 @@ def check_scrub_release_clears_group(ctx, inst):
                 hi_defs = [d for l in hi_l for d in b.defs.get(l, [])]
                 ctx.check(len(hi_defs) >= 2, inst, "PROVENANCE", b.path, "the upper bound of the cleared group is the bound the run was extended to", b.where(c), {"range_hi": hi.show()})
         R.guard(ctx, inst, b, cs, R.guard_edges_for_call(b, rs, "Ok"), "%s only after the release succeeded" % nm.split("::")[-1])
+
+
+
+RESTRICTING = ("Iterator::filter", "Iterator::filter_map", "Iterator::take", "Iterator::skip", "Iterator::step_by", "Iterator::take_while",
+               "Iterator::skip_while", "Iterator::rev", "slice::chunks", "slice::split_at", "slice::first", "slice::last", "slice::get")
+
+
+def whole_collection_loop(body, nid, arg_idx=0):
+    """does the call at nid sit in a loop and receive an element obtained by iterating a *whole* collection
+    (no index range, take/skip/filter, first/last)? returns (ok, names of the collection, detail)"""
+    n = body.nodes[nid]
+    e = R.arg_expr(body, n, arg_idx)
+    r, _ = A.reach(body, A.succs(body, nid), sensitive=False)
+    in_loop = nid in r
+    if not e.has_call("Iterator::next"):
+        return False, set(), "argument does not come from an iterator (%s)" % e.show()[:80]
+    tr = A.tracer(body)
+    seen = set()
+    work = [e]
+    calls = []
+    names = set()
+    while work:
+        x = work.pop()
+        for y in x.walk():
+            if y.k == "call":
+                calls.append(y.extra)
+            if y.k == "index":
+                calls.append("<index>")
+            if y.k in ("local",):
+                from rules import roles
+                nm = roles.name_of(body, y.extra)
+                if nm:
+                    names.add(nm)
+                if y.extra not in seen:
+                    seen.add(y.extra)
+                    for d in body.defs.get(y.extra, []):
+                        work.append(tr.node_value(d))
+            if y.k == "arg":
+                from rules import roles
+                nm = roles.name_of(body, y.extra[0])
+                if nm:
+                    names.add(nm)
+    bad = [c for c in calls if any(path_matches(c, f) for f in RESTRICTING) or c == "<index>" or (c.endswith("::index") and "Index" in c)]
+    return (in_loop and not bad), names, {"in_loop": in_loop, "restricted_by": bad}
